@@ -2,7 +2,7 @@
 # apply a seeded change in the isolated evaluation copy and leave it applied: seed_try.sh <seed-dir> ; then run commands in /tmp/evalverif
 # with VERIF_REPO=/tmp/evalrepo ; undo with: git -C /tmp/evalrepo checkout -- .
 set -eu
-EV=/tmp/evalverif; ER=/tmp/evalrepo
+S=${EVAL_SUFFIX:-}; EV=/tmp/evalverif$S; ER=/tmp/evalrepo$S
 mkdir -p $EV
 rsync -a --delete --exclude .git --exclude scratch --exclude replays /verif/ $EV/
 if [ ! -d $ER ]; then git -C /repo worktree add -q --detach $ER HEAD; fi
